@@ -356,6 +356,61 @@ def index_rewrite_rule(ctx, rep, R):
                 if "callee" in t and re.search(r"Iterator::(any|all)$", callee_decl(t)) and any(c.path in repr(flow.expr_of(g, a, bb)) for a in t["args"][1:]):
                     cons = callee_decl(t).rsplit("::", 1)[-1]
         found.append((c, table, exact, cons))
+    if not found:
+        # the per-pack test written inline (a loop with a flag instead of `any(closure)`): the retain closure itself is
+        # evaluated - index not modified, large enough, every pack of it with the given decision - and its result must be
+        # "keep for processing" exactly where the table says so
+        from rules.C11 import _upvar_name
+        adt = prog.adt("commands::prune::PackToDo")
+        dv_of = {v["name"]: str(v["discr"]) for v in adt["variants"]}
+        for c in fam:
+            if not c.is_closure() or c.locals[0] != "bool" or "modified" not in repr([flow.expr_of(c, c.term(bi)["discr"], bi) for bi in range(len(c.blocks)) if c.term(bi)["k"] == "switch"]):
+                continue
+            table, exact = {}, True
+            for var in variants:
+                row = []
+                for inst in (False, True):
+                    def ev(b_, e_, var=var, inst=inst):
+                        if e_[0] in ("path", "proj") and "modified" in [str(x) for x in e_[2]]:
+                            return False
+                        if e_[0] == "path" and e_[1] == ("arg", 1) and e_[2] and str(e_[2][0]).isdigit() and b_.is_closure():
+                            return inst if _upvar_name(b_, int(e_[2][0])) == "instant_delete" else None
+                        if e_[0] == "call" and re.search(r"PartialEq(<.*>)?>?::(eq|ne)$", e_[1]) and len(e_[2]) == 2:
+                            w = None
+                            for a_, o_ in ((e_[2][0], e_[2][1]), (e_[2][1], e_[2][0])):
+                                m_ = re.search(r"\('adt', '[\w:]*PackToDo', '(\w+)'", repr(o_))
+                                if m_ and "'to_do'" in repr(a_) and "'to_do'" not in repr(o_):
+                                    w = m_.group(1)
+                            if w is not None:
+                                return (var == w) == e_[1].endswith("eq")
+                        if e_[0] == "bin" and e_[1] in ("Lt", "Le", "Gt", "Ge") and len(e_) >= 4:
+                            # the index file is large enough (its length exceeds any constant it is compared with)
+                            is_len = lambda x_: x_[0] == "call" and re.search(r"::len$", x_[1]) is not None
+                            if is_len(e_[2]) and e_[3][0] == "const":
+                                return e_[1] in ("Gt", "Ge")
+                            if is_len(e_[3]) and e_[2][0] == "const":
+                                return e_[1] in ("Lt", "Le")
+                        return None
+
+                    def fz(body, bb, var=var):
+                        t = body.term(bb)
+                        if t["k"] != "switch":
+                            return None
+                        src = [s_ for s_ in body.blocks[bb]["s"] if s_[0] == "=" and s_[1] == [op_local(t["discr"])] and s_[2][0] == "discr" and "PackToDo" in str(s_[2][2])]
+                        if not src:
+                            return None
+                        tg = [x for vv, x in t["targets"] if vv == dv_of[var]]
+                        return tg[0] if tg else t["otherwise"]
+                    vals = bool_result_under(c, ev, force_extra=fz)
+                    row.append(vals)
+                table[var] = tuple(row)
+            bad = {k: tuple(sorted(map(str, x)) for x in table[k]) for k in table
+                   if any((True not in table[k][i]) if WANT[k][i] else (table[k][i] != {False}) for i in (0, 1))}
+            rep.require(R, "filter_index_files/predicate", True, where=F.loc(), what="filter_index_files decides per pack whether the index file has to be rewritten (inline form)")
+            rep.check(R, "filter_index_files/rewrite-table", not bad, where=c.loc(),
+                      what="an index file is rewritten iff one of its packs gets a decision other than Keep (or KeepMarked without instant delete)" if not bad else
+                           f"the decisions that force an index file to be rewritten differ from the executor's needs (possible results of the retain predicate as (no-instant, instant)): {bad}")
+            return
     rep.require(R, "filter_index_files/predicate", len(found) >= 1, where=F.loc(), what="filter_index_files decides per pack whether the index file has to be rewritten")
     for (c, table, exact, cons) in found:
         if not exact:
